@@ -35,6 +35,15 @@ CHECKS = {
              '(p, L(p), blob(p)) triples in storage order, each evaluation at most once; replay over evaluation modes with an instrumented '
              'likelihood whose call log every returned row is checked against.',
         note='Trusted: Lean kernel + standard axioms; harness/corerec.py + corechecks.py (outside instrumentation, abstraction of the real state); numerics (bounds, networks, likelihood values) are oracles: theorems hold for every oracle answer subject to the stated hypotheses (WF = proposals fresh, in the cube and inside their bound, i.e. C07; PhaseOK/TPhase = phase discipline of run()).', tech='Lean 4 proof (alignment refinement parallel arrays -> rows) + replay with instrumented likelihood', ref='DESIGN.md §3 C03'),
+    'C09': dict(
+        text='Lean 4 `decide` theorems over persistence tables regenerated from write/read/update of every bound class (all classes x '
+             'all guard valuations): read assigns every attribute the behavioural methods use, from the key and under the guard write '
+             'stored it with; update covers what sample mutates; real round trips of every class x options x histories compared '
+             'bit-exactly (contains on 12k points, log_v, sample streams under a cloned generator, update vs write, rewrite idempotence).',
+        note='Trusted: Lean kernel (decide, no axioms), harness/gen_c09.py (AST table extraction incl. its guard-correspondence table), '
+             'harness/c09.py; h5py/HDF5 return stored bytes; NeuralNetworkEmulator persistence is dynamic (network.__dict__) and covered '
+             'only by the round-trip runs.',
+        tech='Lean 4 proof by decide over generated finite tables + bit-exact write/read round trips', ref='DESIGN.md §3 C09'),
     'C10': dict(
         text='Lean 4 theorems: a successful step evaluates exactly n_batch proposed points and adds exactly that to the counter, nothing '
              'else moves the counter, evaluated points are in the cube; real histories sliced by n_like_max from 0 upward check counter = '
@@ -63,7 +72,7 @@ CHECKS = {
         tech='Lean 4 proof + AST translator + scripted-RNG exact differential', ref='DESIGN.md §3 C14'),
 }
 
-READY = ['C01', 'C02', 'C03', 'C10', 'C12', 'C13', 'C14', 'C15', 'C16']
+READY = ['C01', 'C02', 'C03', 'C09', 'C10', 'C12', 'C13', 'C14', 'C15', 'C16']
 
 PENDING_REASON = 'check under construction in this build round; not yet registered (see DESIGN.md §6 build order)'
 
